@@ -600,6 +600,11 @@ func (peer *peer) filterPathFromSourcePeer(path, old *table.Path) *table.Path {
 }
 
 func (peer *peer) sendNotification(msg *bgp.BGPMessage) {
+	// the queue is read by the established session only: queued for a peer
+	// that has none, the NOTIFICATION would be sent on its next session
+	if peer.State() != bgp.BGP_FSM_ESTABLISHED {
+		return
+	}
 	nonblockSendChannel(peer.fsm.notification, msg)
 }
 
